@@ -92,6 +92,14 @@ func (m *Machine) tAnd(a, b *Term) *Term {
 	if a.S == "false" || b.S == "false" {
 		return termFalse
 	}
+	// flatten chains of conjunctions into wide n-ary nodes: a chain of
+	// thousands of binary ands is pathologically slow to parse in z3
+	if strings.HasPrefix(a.S, "(and ") && len(a.S) < 1500 && len(b.S) < 200 {
+		return &Term{a.S[:len(a.S)-1] + " " + b.S + ")", 0}
+	}
+	if len(a.S) < 200 && len(b.S) < 200 {
+		return &Term{"(and " + a.S + " " + b.S + ")", 0}
+	}
 	return m.app(0, "and", a, b)
 }
 
